@@ -912,6 +912,9 @@ where
         // inputs, this is much faster than any other alternative.
         while let Some(v) = algorithm::try_parse_8digits::<u64, _, FORMAT>(&mut iter) {
             *mantissa = mantissa.wrapping_mul(radix8).wrapping_add(v);
+            // NOTE: The digits were stepped over without being counted, which
+            // matters if another component of the format is not contiguous.
+            iter.increment_count_by(8);
         }
     }
 }
@@ -941,6 +944,7 @@ pub fn parse_u64_digits<'a, Iter, const FORMAT: u128>(
         while *step > 8 {
             if let Some(v) = algorithm::try_parse_8digits::<u64, _, FORMAT>(&mut iter) {
                 *mantissa = mantissa.wrapping_mul(radix8).wrapping_add(v);
+                iter.increment_count_by(8);
                 *step -= 8;
             } else {
                 break;
